@@ -164,7 +164,7 @@ func NewSpecDB() *SpecDB {
 var clauseKW = map[string]bool{"requires": true, "ensures": true, "ghostensures": true, "modifies": true, "decreases": true, "loop": true,
 	"inline": true, "trusted": true, "pure": true, "tag": true, "noframe": true, "opaque": true, "unclaimed": true, "let": true, "letpost": true, "oncallback": true, "insertonly": true, "freshfields": true, "deletesites": true}
 var topKW = map[string]bool{"func": true, "functype": true, "extern": true, "pred": true, "table": true, "specfn": true,
-	"axiom": true, "lemma": true, "ghostfield": true, "iface": true, "const": true, "ghostvar": true, "globalinv": true, "guardedby": true, "readers": true, "writers": true, "globalwriters": true, "mapranges": true, "equiv": true}
+	"axiom": true, "lemma": true, "ghostfield": true, "iface": true, "const": true, "ghostvar": true, "globalinv": true, "guardedby": true, "readers": true, "writers": true, "callers": true, "globalwriters": true, "mapranges": true, "equiv": true}
 
 type rawLine struct {
 	text string
@@ -499,10 +499,14 @@ func (db *SpecDB) LoadFile(path string, pkg string) error {
 			}
 			db.Consts[strings.TrimSpace(kv[0])] = strings.TrimSpace(kv[1])
 			cur = nil
-		case "readers", "writers", "globalwriters", "mapranges":
+		case "readers", "writers", "callers", "globalwriters", "mapranges":
 			tags, body := splitTags(rest)
 			field, list := "", body
-			if kw != "globalwriters" && kw != "mapranges" {
+			if kw == "callers" {
+				// callers [Cnn] <function> : <the only functions that may call it>
+				field, list = splitColon(body)
+				field = qualifyKey(strings.TrimSpace(field), pkg)
+			} else if kw != "globalwriters" && kw != "mapranges" {
 				field, list = splitColon(body)
 				if strings.Count(field, ".") == 1 {
 					field = pkg + "." + field
